@@ -165,7 +165,7 @@ class MarkovNetwork(UndirectedGraph):
         >>> student.get_factors('Alice')
         [<DiscreteFactor representing phi(Alice:2, Bob:2) at 0x7f8a0e9bf630>]
         """
-        if node:
+        if node is not None:
             if node not in self.nodes():
                 raise ValueError("Node not present in the Undirected Graph")
             node_factors = []
@@ -219,7 +219,7 @@ class MarkovNetwork(UndirectedGraph):
         >>> student.get_cardinality()
         defaultdict(<class 'int'>, {'Bob': 2, 'Alice': 2})
         """
-        if node:
+        if node is not None:
             for factor in self.factors:
                 for variable, cardinality in zip(factor.scope(), factor.cardinality):
                     if node == variable:
